@@ -448,6 +448,8 @@ class Exec:
         self.encoded = set()      # names of crate functions actually interpreted
         self.models_used = set()
         self.pc = []
+        self.fresh_solver = True
+        self.cur_model = None
 
     # ---- models
     def model(self, pat):
@@ -488,6 +490,7 @@ class Exec:
             self.work = work
             self.taken = []
             self.fresh_n = 0
+            self.cur_model = None
             self.stats['paths'] += 1
             if self.stats['paths'] > max_paths:
                 raise Unsupported('path budget exceeded')
@@ -512,12 +515,22 @@ class Exec:
     def _check(self, extra):
         t = time.time()
         self.stats['queries'] += 1
-        self.solver.push()
-        for c in extra:
-            self.solver.add(c)
-        r = self.solver.check()
-        m = self.solver.model() if r == z3.sat else None
-        self.solver.pop()
+        if self.fresh_solver:
+            sv = z3.SolverFor('QF_BV')
+            sv.set('timeout', 60000)
+            for c in self.pc:
+                sv.add(c)
+            for c in extra:
+                sv.add(c)
+            r = sv.check()
+            m = sv.model() if r == z3.sat else None
+        else:
+            self.solver.push()
+            for c in extra:
+                self.solver.add(c)
+            r = self.solver.check()
+            m = self.solver.model() if r == z3.sat else None
+            self.solver.pop()
         self.stats['solver_time'] += time.time() - t
         if r == z3.sat:
             self.stats['sat'] += 1
@@ -544,9 +557,13 @@ class Exec:
 
     def add_pc(self, c):
         self.pc.append(c)
-        self.solver.add(c)
+        if self.cur_model is not None and not z3.is_true(self.cur_model.eval(c, model_completion=True)):
+            self.cur_model = None
+        if not self.fresh_solver:
+            self.solver.add(c)
 
     def assume(self, c):
+        """add a constraint; the path ends silently if it becomes infeasible (pc stays satisfiable by invariant)"""
         c = mk_bool(c)
         if not isinstance(c, bool):
             c = mk_bool(z3.simplify(c))
@@ -554,7 +571,16 @@ class Exec:
             return
         if c is False:
             raise PathEnd()
+        if self.dec_i < len(self.prefix) or (self.cur_model is not None and z3.is_true(self.cur_model.eval(c, model_completion=True))):
+            self.add_pc(c)      # replaying a prefix that was feasible, or witnessed by the current model
+            return
+        r, m = self._check([c])
+        if r == z3.unsat:
+            raise PathEnd()
+        if r != z3.sat:
+            raise Unsupported('solver returned unknown')
         self.add_pc(c)
+        self.cur_model = m
 
     def assume_checked(self, c):
         """assume and make sure the path is still feasible"""
@@ -590,14 +616,25 @@ class Exec:
                     return lab
             raise Exception(f'replay divergence: {lab} not in {[l for l, _ in live]}')
         feas = []
-        for (l, c) in live:
-            r, _ = self._check([c])
+        mdl = self.cur_model
+        witness = {}
+        for idx, (l, c) in enumerate(live):
+            if mdl is not None and z3.is_true(mdl.eval(c, model_completion=True)):
+                feas.append((l, c))
+                witness[l] = mdl
+                continue
+            if idx == len(live) - 1 and not feas:
+                feas.append((l, c))        # options are exhaustive and pc is satisfiable: the last one must be feasible
+                continue
+            r, m = self._check([c])
             if r == z3.sat:
                 feas.append((l, c))
+                witness[l] = m
             elif r != z3.unsat:
                 raise Unsupported('solver returned unknown')
         if not feas:
             raise PathEnd()
+        self.cur_model = witness.get(feas[0][0])
         for (l, c) in feas[1:]:
             self.work.append(self.taken + [l])
         l, c = feas[0]
